@@ -76,11 +76,12 @@ Definition chk_conform (c : universe * string * gobs) : bool :=
    i.e. `DimensionGroup(universe, names, _conform=False)` = group_of_names *)
 Definition chk_pair (c : universe * list string * list string * (list string * list string * list bool)) : bool :=
   let '(u, na, nb, (nu, ni, bs)) := c in
-  let a := group_of_names u na in
-  let b := group_of_names u nb in
-  match gunion u a b, ginter u a b with
+  (* gnames (gunion u a b) and gnames (ginter u a b) are these closures by definition (Proofs: gunion_names,
+     ginter_names); building the full records (lookup_order ...) for every pair would only cost time *)
+  match closure u (na ++ nb), closure u (filter (fun d => memb d nb) na) with
   | GOk un, GOk it =>
-    list_eqb (gnames un) nu && list_eqb (gnames it) ni
-    && bools_eqb bs [gsubset a b; geqb a b; list_eqb (ghash a) (ghash b); gdisjoint a b]
+    list_eqb un nu && list_eqb it ni
+    && bools_eqb bs [forallb (fun d => memb d nb) na; list_eqb na nb;
+                     list_eqb (required_of u na) (required_of u nb); forallb (fun d => negb (memb d nb)) na]
   | _, _ => false
   end.
